@@ -16,7 +16,7 @@ the real code:
  * proxy stream: both edges on top of the real ProxyQueue with relay stubs
    returning every result shape for 1-3 recipients.
 """
-import base64, io, itertools, logging, re
+import base64, errno, io, itertools, logging, re
 
 import gevent
 import gevent.queue
@@ -37,6 +37,9 @@ from slimta.policy.headers import AddDateHeader
 from vp.core import B
 
 ASSUMPTIONS = [
+    'a write may end with an exception of any family (QueueError, Exception subclasses such as OSError or a backend client error, gevent.Timeout, other BaseException-only classes such as the GreenletExit of a killed write); a real KeyboardInterrupt/SystemExit is not injected because the gevent hub re-raises those in the main greenlet (a custom BaseException-only class stands for them)',
+    'when a BaseException-only exception leaves the edge there is no reply from the edge at all (SMTP: session over, socket closed; WSGI: the application raises and the WSGI server - gevent.pywsgi - answers 500 by itself): counted as "not acknowledged", the answer being recorded as "dropped"',
+    'spelling of the HTTP recipient list: not in the written quantifier of C02 (header parsing is C06 territory) and not modelled; judged by the oracle only',
     'model/Edge.v has no pool parameter: store_pool / relay_pool / bounce_queue only affect scheduling, never the results of enqueue(); this is checked by running the write-fault matrix under 6 non-default Queue configurations against the same model and against the default-configuration run (a relay pool smaller than the number of never-finishing attempts would block enqueue itself: C12 finding, excluded)',
     'model/Edge.v is generic in the number of envelopes (every theorem quantifies over all lists of write behaviours); the count dimension (up to 100 envelopes) ties that to the code',
     'session stream: validators accept with the default codes (250 / 354) and refuse with 4xx/5xx other than 421 (a 251/252 answer to RCPT or a closing 421/221 is not in the scripted alphabet)',
@@ -59,6 +62,15 @@ class Boom(Exception):
 
 class HarnessError(Exception):
     pass
+
+
+class BackendError(ConnectionError):
+    """what a storage backend's client library raises"""
+
+
+class Fatal(BaseException):
+    """a BaseException-only class that gevent does not treat specially (unlike a real
+    KeyboardInterrupt, which the hub re-raises in the main greenlet)"""
 
 
 class FakePtrLookup(object):
@@ -85,10 +97,19 @@ KINDS = {
     'qerr250': ('q', '250'),
     'qerr354': ('q', '354'),
     'qerrnocode': ('q', ''),
-    'exc': ('x',),
+    # any other way a write can end: ('x', family, factory); family 0 = Exception subclass,
+    # 1 = gevent.Timeout (BaseException only), 2 = another BaseException-only class
+    'exc': ('x', 0, lambda: Boom('stub exception')),
+    'oserror': ('x', 0, lambda: OSError(errno.ENOSPC, 'No space left on device')),
+    'backend': ('x', 0, lambda: BackendError('connection to the storage backend lost')),
+    'timeout': ('x', 1, lambda: gevent.Timeout(5)),          # the backend's own `with gevent.Timeout(n)` fired
+    'killed': ('x', 2, lambda: gevent.GreenletExit()),       # the write greenlet was killed
+    'fatal': ('x', 2, lambda: Fatal('interrupt-like')),      # any other BaseException-only class
 }
 CORE = ['id', 'qerr', 'qerr550', 'exc']
 EXTRA = ['qerr450', 'qerr250', 'qerr354', 'qerrnocode']
+FAMILIES = ['oserror', 'backend', 'timeout', 'killed', 'fatal']
+BASE_ONLY = ('timeout', 'killed', 'fatal')
 
 
 def mk_reply(code):
@@ -109,7 +130,7 @@ def enc_wout(kind):
         return [0]
     if k[0] == 'q':
         return [1, enc_att(k[1])]
-    return [2]
+    return [2, k[1]]
 
 
 class StoreStub(QueueStorage):
@@ -147,7 +168,7 @@ class StoreStub(QueueStorage):
             if spec[1] is not None:
                 e.reply = mk_reply(spec[1])
             raise e
-        raise Boom('stub exception')
+        raise spec[2]()
 
     @property
     def blocked(self):
@@ -279,6 +300,14 @@ class Run(object):
             self.at_reply = self.snapshot()
             self.log.append((8, value) if self.edge_kind == 'smtp' else (9, value))
 
+    def _dropped(self, g):
+        """no answer and the greenlet serving the client is gone: the exception left the edge (SMTP:
+        session over, socket closed without a reply; WSGI: the application raised, the WSGI server
+        answers 500 on its own).  Recorded as the answer 'dropped'."""
+        if self.answer is None and g.dead:
+            self.answer = 'dropped'
+            self.at_reply = self.snapshot()
+
     def _pump(self, g, done):
         """let the edge run; at every blocked write/relay: observe, tick, release"""
         while True:
@@ -336,6 +365,7 @@ class Run(object):
         self._pump(g, lambda: self.answer is not None)
         if self.answer is None and not g.dead:
             settle(lambda: self.answer is not None or g.dead, 'final reply')
+        self._dropped(g)
         # end the session
         if not g.dead:
             sock.feed(b'QUIT\r\n')
@@ -365,6 +395,7 @@ class Run(object):
         g = gevent.spawn(edge, environ, start_response)
         self._pump(g, lambda: self.answer is not None)
         g.join(timeout=1)
+        self._dropped(g)
         self.transcript = None
         return self
 
@@ -395,7 +426,7 @@ def ack_key(kinds):
 
 def cls(answer):
     """reply class of an SMTP code string or an HTTP status"""
-    if answer is None:
+    if answer is None or answer == 'dropped':
         return None
     return int(answer[0]) if isinstance(answer, str) else answer // 100
 
@@ -441,6 +472,20 @@ def queue_cases(ctx):
     for L in (1, 2):
         for kinds in itertools.product(CORE, repeat=L):
             add('split', kinds, (False,) * L, relay=False)
+    # every exception family a write can end with, at every position, alone and next to a QueueError,
+    # immediately or after having blocked; with and without a store pool
+    for fam in FAMILIES:
+        for L in (1, 2, 3):
+            for kinds in itertools.product(('id', 'qerr', fam), repeat=L):
+                if fam not in kinds:
+                    continue
+                add('split', kinds, (False,) * L)
+                add('split', kinds, tuple(k == fam for k in kinds))
+                if L <= 2:
+                    for cfg in ('store_pool=2', 'store_pool=Pool(10)'):
+                        add('split', kinds, (False,) * L, cfg=cfg)
+        add('none', (fam,), (False,))
+        add('domain', ('id', fam), (False, False))
     # COUNT: many envelopes from one message (n recipients under RecipientSplit, n domains with two
     # recipients each under RecipientDomainSplit); all writes ok / the last one fails / a middle one fails
     for n in COUNTS:
@@ -554,6 +599,11 @@ def judge_queue(ctx, case, behs, out):
     if out['answer'] is None:
         fail(ctx, 'c02:no-answer', case, 'the edge never answered although every write completed')
         return
+    if out['answer'] == 'dropped':
+        # never an acknowledgement; tolerated only when a write ended in a BaseException-only class
+        if not any(k in BASE_ONLY for k, _ in behs):
+            fail(ctx, 'c02:no-answer', case, 'the client was dropped without a 4xx/5xx answer; failed writes %r' % (failed,))
+        return
     if c == 2:
         missing = [r for r in out['rcpts'] if r not in out['at_reply']]
         if failed or missing or out['writes'] != len(behs):
@@ -612,7 +662,8 @@ def run_queue_stream(ctx):
             # ---- correspondence
             m_trace = canon_trace(m[ei][0])
             m_ans = m[ei][1]
-            m_ans = None if m_ans == () else (B(m_ans[0]).decode() if edge_kind == 'smtp' else m_ans[0])
+            m_ans = None if m_ans == () else 'dropped' if m_ans == ((),) else (
+                B(m_ans[0]).decode() if edge_kind == 'smtp' else m_ans[0])
             m_att = sorted(m[2])
             m_stored = sorted(r for e in m_trace if e[0] == 2 for r in out['write_rcpts'][e[1]]) if all(
                 e[1] < len(out['write_rcpts']) for e in m_trace if e[0] == 2) else None
@@ -1486,6 +1537,106 @@ def run_session_stream(ctx):
 
 
 
+# ---------------------------------------------------------------- spelling stream (HTTP edge)
+# How the HTTP client SPELLS the recipient list is the client's business: one header per
+# recipient (a WSGI server joins repeated headers with ","), one header with "," / ";" and any
+# blanks, mixed, padded or unpadded base64, a trailing separator.  Whatever the spelling: a
+# recipient the client NAMED in a request that is answered 2xx must have been shown to the
+# validators and be in storage.  Oracle only (the model starts at the envelope; the parsing of
+# the envelope headers is C06's subject) - judged here because C02 speaks of every recipient the
+# client was told is accepted.
+from slimta.edge.wsgi import WsgiValidators
+
+SPELL_ADDRS = {0: 'abc@example.com', 1: 'ab@example.com', 2: 'a@example.com',      # base64 padding "", "=", "=="
+               3: 'xyz@example.net', 4: 'xy@example.net', 5: 'x@example.net'}
+SPELLINGS = {
+    'repeated-header': dict(seps=[',']),          # what gevent.pywsgi / any WSGI server makes of repeated headers
+    'comma-space': dict(seps=[', ']), 'comma': dict(seps=[',']),
+    'semicolon': dict(seps=[';']), 'semicolon-space': dict(seps=['; ']), 'space-semicolon': dict(seps=[' ;']),
+    'space-semicolon-space': dict(seps=[' ; ']), 'tab-comma-tab': dict(seps=['\t,\t']),
+    'mixed-comma-semicolon': dict(seps=[', ', '; ']), 'mixed-semicolon-comma': dict(seps=[';', ',']),
+    'trailing-comma': dict(seps=[', '], tail=', '), 'trailing-semicolon': dict(seps=['; '], tail=';'),
+    'unpadded-comma': dict(seps=[', '], unpadded=True), 'unpadded-semicolon': dict(seps=['; '], unpadded=True),
+}
+
+
+def spell(rcpts, spelling):
+    sp = SPELLINGS[spelling]
+    vals = [base64.b64encode(r.encode()).decode() for r in rcpts]
+    if sp.get('unpadded'):
+        vals = [v.rstrip('=') for v in vals]
+    out = vals[0]
+    for i, v in enumerate(vals[1:]):
+        out += sp['seps'][i % len(sp['seps'])] + v
+    return out + sp.get('tail', '')
+
+
+def run_spelling(rcpt_ids, spelling, chain):
+    rcpts = [SPELL_ADDRS[i] for i in rcpt_ids]
+    seen = []
+
+    class RecordingValidators(WsgiValidators):
+        def validate_recipient(self, recipient):
+            seen.append(recipient)
+
+    store = DictStorage()
+    queue = Queue(store, None)
+    add_policies(queue, chain)
+    edge = WsgiEdge(queue, hostname='edge.test', validator_class=RecordingValidators)
+    environ = {
+        'REQUEST_METHOD': 'POST', 'PATH_INFO': '/', 'CONTENT_TYPE': 'message/rfc822',
+        'CONTENT_LENGTH': str(len(MSG)), 'wsgi.input': io.BytesIO(MSG), 'wsgi.url_scheme': 'http',
+        'REMOTE_ADDR': '192.0.2.7', 'HTTP_X_EHLO': 'client.test',
+        'HTTP_X_ENVELOPE_SENDER': base64.b64encode(SENDER.encode()).decode(),
+        'HTTP_X_ENVELOPE_RECIPIENT': spell(rcpts, spelling),
+    }
+    res = {'status': None, 'stored': None}
+
+    def start_response(status, headers):
+        if res['status'] is None:
+            res['status'] = int(status[:3])
+            res['stored'] = sorted(r for e in store.env_db.values() for r in e.recipients)
+
+    try:
+        edge(environ, start_response)
+    except BaseException as e:           # the application raised: the WSGI server answers 500
+        res['status'] = res['status'] or ('raised', type(e).__name__)
+    return dict(named=rcpts, header=environ['HTTP_X_ENVELOPE_RECIPIENT'], status=res['status'],
+                seen=list(seen), stored=res['stored'])
+
+
+def run_spelling_stream(ctx):
+    n = 0
+    lists = [l for L in (1, 2, 3) for l in itertools.product((0, 1, 2), repeat=L)]
+    lists += [(3, 0), (1, 4, 2), (5, 3, 4)]
+    for rcpt_ids in lists:
+        for spelling in SPELLINGS:
+            for chain in ('none', 'split'):
+                out = run_spelling(rcpt_ids, spelling, chain)
+                n += 1
+                case = dict(stream='spelling', recipients=list(rcpt_ids), spelling=spelling, chain=chain)
+                ctx.evaluated(('spelling', rcpt_ids, spelling, chain), nontrivial=len(rcpt_ids) > 1)
+                ctx.count('spelling:' + spelling)
+                st = out['status']
+                ctx.count('spelling:status:%s' % (st if isinstance(st, int) else 'raised'))
+                if isinstance(st, int) and st // 100 == 2:
+                    lost = [r for r in out['named'] if r not in (out['stored'] or []) or r not in out['seen']]
+                    if lost:
+                        fail(ctx, 'c02:named-recipient-never-reached-the-envelope', case,
+                             'header %r names %r; answer %s; validators saw %r; stored %r' % (
+                                 out['header'], out['named'], st, out['seen'], out['stored']))
+                    extra = [r for r in (out['stored'] or []) if r not in out['named']]
+                    if extra:
+                        ctx.count('spelling:2xx-with-extra-recipient')
+                        ctx.note('HTTP edge: a trailing separator in X-Envelope-Recipient adds an empty recipient %r to the envelope '
+                                 '(named recipients are all stored; the bogus one is C06 territory, reported only)' % (extra[:1],))
+                elif isinstance(st, int) and st // 100 not in (4, 5):
+                    fail(ctx, 'c02:answer-class', case, 'status %r' % (st,))
+                ctx.sample(dict(case=case, header=out['header'], status=st, stored=out['stored']), cap=12)
+    return n
+
+
+
 # ---------------------------------------------------------------- entry points
 class quiet(object):
     """no network (PTR lookups stubbed), no log noise, no tracebacks of the
@@ -1502,7 +1653,7 @@ class quiet(object):
         self.logger.propagate = False
         self.hub = gevent.get_hub()
         self.not_error = self.hub.NOT_ERROR
-        self.hub.NOT_ERROR = tuple(self.not_error) + (Exception,)
+        self.hub.NOT_ERROR = tuple(self.not_error) + (Exception, Fatal, gevent.Timeout)
         return self
 
     def __exit__(self, *exc):
@@ -1520,6 +1671,7 @@ def run(ctx):
         np_ = run_proxy_stream(ctx)
         nc, nall = run_concurrent_stream(ctx)
         ns = run_session_stream(ctx)
+        nsp = run_spelling_stream(ctx)
     ctx.extra['rule'] = (
         'queue stream: every list of 1-4 storage-write behaviours over {id, QueueError, QueueError+550 reply, other exception} '
         'with no or exactly one slow write at every position, every list of 1-%d behaviours over 8 kinds (attached replies 450/550/250/354/no code) '
@@ -1535,7 +1687,9 @@ def run(ctx):
         '(real DictStorage, plain or with gated writes) with 11 policy chains containing a policy that yields inside apply() (gevent.sleep(0) or a gate; first/middle/last position; '
         'with/without RecipientSplit/RecipientDomainSplit before/after it): %d runs, every interleaving of sends and gate releases for %d configurations, seeded random interleavings for the rest; '
         'oracle per client at the instant it reads 2xx: every one of ITS recipients is stored in an envelope of ITS message; the global event log must be the model\'s interleaving (c02_sched) '
-        'of the per-message runs, i.e. each client\'s events are exactly its own sequential model run. session stream: %d whole SMTP sessions on the real SmtpEdge/Server with a validator class deciding every command '
+        'of the per-message runs, i.e. each client\'s events are exactly its own sequential model run. spelling stream (oracle only): %d requests to the real WsgiEdge (recording WsgiValidators, real Queue + DictStorage, with/without RecipientSplit) whose X-Envelope-Recipient value is '
+        'spelled by hand in 14 ways (repeated header, "," / ";" with and without blanks and tabs, mixed, trailing separator, unpadded base64) for 1-3 recipients of every base64 padding class: '
+        'on 2xx every recipient the client named was shown to the validators and is stored; session stream: %d whole SMTP sessions on the real SmtpEdge/Server with a validator class deciding every command '
         '(MAIL 250/450/550, each RCPT 250/450/550, DATA 354/451/554, received data 250/550, EHLO 250/550), transactions continued after a refused RCPT and after a refused DATA '
         '(with and without further RCPTs), RSET / EHLO / a second transaction in the same session, duplicate recipients, over real Queue + DictStorage with 5 policy chains incl. the split policies: '
         'every sequence of up to %d commands over 8 symbols that can complete a message, a family around refused DATA, seeded random longer sessions; oracle from the client side only: '
@@ -1543,7 +1697,7 @@ def run(ctx):
         'Compared with the model: event trace (write start/tick/done/fail, answer), answer code, attempts spawned, storage contents at the instant of the answer, '
         'and the trace at every blocked instant against the model run in which that write hangs. '
         'non-trivial = more than one envelope, a failing or slow write, any proxy case, result lists of length != 1'
-        % (2 if ctx.quick else 3, nq, 3 if ctx.quick else 4, nr, np_, nc, nall, ns, 4 if ctx.quick else 5))
+        % (2 if ctx.quick else 3, nq, 3 if ctx.quick else 4, nr, np_, nc, nall, nsp, ns, 4 if ctx.quick else 5))
     ctx.extra.pop('_c02_fail', None)
     ctx.extra['exhaustive'] = True
     ctx.extra['exhaustive_bound'] = (
@@ -1589,6 +1743,13 @@ def replay(ctx, case):
             if ctx.model:
                 mo = ctx.model.call('c02_sched', [0, expected_msgs(cfg), [o for o, e in out['log']]])
                 print('model (per-message runs interleaved as observed):', [(e[0], canon_trace([e[1]])[0]) for e in mo])
+        elif c.get('stream') == 'spelling':
+            out = run_spelling(tuple(c['recipients']), c['spelling'], c['chain'])
+            print('X-Envelope-Recipient: %r' % out['header'])
+            print('named by the client : %r' % out['named'])
+            print('status              : %r' % (out['status'],))
+            print('seen by validators  : %r' % out['seen'])
+            print('stored at the answer: %r' % out['stored'])
         elif c.get('stream') == 'session':
             script = [tuple(x) for x in c['script']]
             out = run_session(c['chain'], script)
